@@ -5,6 +5,7 @@ code -> spec : traces of the real code under random / PCT schedules validated by
 """
 import json, os, re
 import vlib
+from checks import cli_common
 
 TRACE_CFG = """SPECIFICATION TSpec
 CONSTANT TraceFile = "@TRACE@"
@@ -128,6 +129,9 @@ def run(rep, tier, seed):
         rep.case(canon(sc), nontrivial(sc))
     for sc in scens[:2] + scens[m["replayed"]:m["replayed"] + 2]:
         rep.sample([{k: v for k, v in e.items()} for e in sc[:40]])
+    # the chunk server (the command that puts a de-duplication queue in front of its stores): overlapping requests for one chunk
+    # reach the upstream once, also after SIGHUP reloads of --store-file
+    cli_common.run(rep, vlib.workdir("C12-cli"), seed, "server", tier == "thorough", min_records=3)
     rep.rule = ("scenario = 2..k callers x 1..m calls (get/has/store over 2 ids, mostly the same id) run on the real "
                 "WriteDedupQueue over a gated fake upstream, schedule from a TLC -simulate behaviour (replay), uniformly "
                 "random or PCT; distinct = different event sequence; non-trivial = at least one call found a request in flight")
@@ -137,6 +141,10 @@ def run(rep, tier, seed):
 
 
 def replay(path):
+    import json as _json
+    _r = cli_common.replay_if_cli(_json.load(open(path)), vlib.workdir("C12-cli-replay"))
+    if _r is not None:
+        return _r
     d = json.load(open(path))
     ev = d["replay"].get("events")
     work = vlib.workdir("C12-replay")
